@@ -832,6 +832,68 @@ pub unsafe extern "C" fn ftruncate64(fd: i32, len: i64) -> i32 {
 }
 
 // ---------------------------------------------------------------------------------------------
+// thread creation: "the OS refuses to create another thread" as an injectable fault
+// ---------------------------------------------------------------------------------------------
+
+thread_local! {
+    /// Some(k): the next k pthread_create calls from THIS thread succeed, all later ones fail with EAGAIN
+    static REFUSE_THREADS: std::cell::Cell<Option<u32>> = const { std::cell::Cell::new(None) };
+}
+pub static THREADS_REFUSED: AtomicU64 = AtomicU64::new(0);
+pub static THREADS_CREATED_BY_CODE_UNDER_TEST: AtomicU64 = AtomicU64::new(0);
+
+pub fn refuse_threads(on: bool) {
+    let _ = REFUSE_THREADS.try_with(|c| c.set(if on { Some(0) } else { None }));
+}
+
+/// The OS runs out of threads after `k` more have been created by this thread.
+pub fn refuse_threads_after(k: Option<u32>) {
+    let _ = REFUSE_THREADS.try_with(|c| c.set(k));
+}
+
+type PthreadCreate = unsafe extern "C" fn(
+    *mut libc::pthread_t,
+    *const libc::pthread_attr_t,
+    extern "C" fn(*mut libc::c_void) -> *mut libc::c_void,
+    *mut libc::c_void,
+) -> i32;
+
+static REAL_PTHREAD_CREATE: std::sync::atomic::AtomicUsize = std::sync::atomic::AtomicUsize::new(0);
+
+#[no_mangle]
+pub unsafe extern "C" fn pthread_create(
+    thread: *mut libc::pthread_t,
+    attr: *const libc::pthread_attr_t,
+    start: extern "C" fn(*mut libc::c_void) -> *mut libc::c_void,
+    arg: *mut libc::c_void,
+) -> i32 {
+    match REFUSE_THREADS.try_with(|c| c.get()).unwrap_or(None) {
+        Some(0) => {
+            THREADS_REFUSED.fetch_add(1, Ordering::Relaxed);
+            return libc::EAGAIN;
+        }
+        Some(k) => {
+            let _ = REFUSE_THREADS.try_with(|c| c.set(Some(k - 1)));
+        }
+        None => {}
+    }
+    if PARTY_CLOCK.try_with(|c| c.get().is_some()).unwrap_or(false) {
+        // a thread created from inside a party = created by the code under test
+        THREADS_CREATED_BY_CODE_UNDER_TEST.fetch_add(1, Ordering::Relaxed);
+    }
+    let mut f = REAL_PTHREAD_CREATE.load(Ordering::Relaxed);
+    if f == 0 {
+        f = libc::dlsym(libc::RTLD_NEXT, c"pthread_create".as_ptr()) as usize;
+        REAL_PTHREAD_CREATE.store(f, Ordering::Relaxed);
+    }
+    if f == 0 {
+        return libc::ENOSYS;
+    }
+    let real: PthreadCreate = std::mem::transmute(f);
+    real(thread, attr, start, arg)
+}
+
+// ---------------------------------------------------------------------------------------------
 // clock seam: inside a party, every clock the process can read is the simulated one
 // ---------------------------------------------------------------------------------------------
 
@@ -1076,6 +1138,14 @@ pub fn liveness_selftest() -> Result<(), String> {
         if std::fs::read_to_string(sim_path("m.txt")).ok().as_deref() != Some("0123") {
             return Err("read_to_string on a simulated file".into());
         }
+    }
+    // 3b''. thread creation can be refused (and works otherwise: this test already spawned threads)
+    refuse_threads(true);
+    let refused = std::thread::Builder::new().spawn(|| ()).is_err();
+    refuse_threads(false);
+    let allowed = std::thread::Builder::new().spawn(|| 7).map(|h| h.join().ok()).ok().flatten() == Some(7);
+    if !refused || !allowed {
+        return Err(format!("pthread_create seam: refused={refused} allowed={allowed}"));
     }
     // 3c. clock seam: inside a party the clocks are simulated, outside they are real
     let real0 = std::time::SystemTime::now().duration_since(std::time::UNIX_EPOCH).map(|d| d.as_secs()).unwrap_or(0);
